@@ -1,6 +1,6 @@
 #!/bin/bash
-# usage: tools_confirm_seed.sh <PROP> <i> : confirm a sub-agent's change in its scratch worktree and file it under /verif/seeded
-P=$1; i=$2; WT=/tmp/wt/$P; OUT=/tmp/wt/${P}_out
+# usage: tools_confirm_seed.sh <PROP> <i> [<dest index>] : confirm a sub-agent's change in its scratch worktree and file it under /verif/seeded
+P=$1; i=$2; D=${3:-$2}; WT=/tmp/wt/$P; OUT=/tmp/wt/${P}_out
 cd $WT || exit 9
 git checkout -q -- . ; git clean -qfd
 clean=$(PYTHONPATH=$WT /venv/bin/python $OUT/demo_$i.py >/dev/null 2>&1; echo $?)
@@ -11,9 +11,9 @@ tests=$(PYTHONPATH=$WT timeout 900 /venv/bin/python -m pytest -q -p no:cacheprov
 git checkout -q -- . ; git clean -qfd
 echo "$P-$i demo_clean_rc=$clean demo_mut_rc=$mut import=$imp tests='$tests'"
 if [ "$clean" = "0" ] && [ "$mut" != "0" ] && echo "$tests" | grep -q "51 passed"; then
-  d=/verif/seeded/$P-$i; mkdir -p $d
+  d=/verif/seeded/$P-$D; mkdir -p $d
   cp $OUT/change_$i.diff $d/patch.diff; cp $OUT/demo_$i.py $d/demo.py; cp $OUT/note_$i.txt $d/note.txt
-  /venv/bin/python - "$P" "$i" "$tests" <<'PY'
+  /venv/bin/python - "$P" "$D" "$tests" <<'PY'
 import json, sys
 P, i, tests = sys.argv[1], sys.argv[2], sys.argv[3]
 note = open(f"/verif/seeded/{P}-{i}/note.txt").read()
